@@ -92,6 +92,7 @@ class Exec:
         self.modconsts = src.module_constants(self.mod)
         self.p = None
         self.st = None
+        self.unsupported = []
         self.last_clock = None
         self.oracles = []
         self.loop_ordinals = {}
@@ -106,7 +107,13 @@ class Exec:
         while stack:
             prefix = stack.pop()
             p = Path(prefix)
-            self.run_path(p)
+            try:
+                self.run_path(p)
+            except Unsupported as e:
+                # the obligations generated before the unsupported construct still count; the path is
+                # reported as undecided from there on
+                p.exit = ("unsupported", str(e))
+                self.unsupported.append(str(e))
             out.append(p)
             for idx in range(len(prefix), len(p.decisions)):
                 for alt in range(1, p.width[idx]):
@@ -135,6 +142,11 @@ class Exec:
         if is_true(simplify(cond)):
             return
         line = getattr(node, "lineno", 0)
+        if any(r[0] == kind for r in self.con._raises):
+            # the contract declares when this exception is raised: follow both outcomes
+            if self.branch(cond, "%s@%d" % (kind, line)):
+                return
+            raise PyRaise(VExc(kind, {}, node))
         self.oblige("no_exception.%s@%d" % (kind, line), cond, self.con.tags, line, "no_exception")
         self.assume(cond)
 
@@ -1099,10 +1111,30 @@ class Exec:
         return vals
 
     def apply_contract(self, con, recv, args, kwargs, e):
+        try:
+            return self._apply_contract(con, recv, args, kwargs, e)
+        except (AttributeError, TypeError, KeyError) as ex_:
+            short = con.qual.split(".", 1)[1]
+            # the arguments do not have the shapes the callee's contract is stated for
+            self.oblige("call@%d.%s.requires.argument_shapes" % (e.lineno, short), BoolVal(False), self.con.tags,
+                        e.lineno, "requires")
+            raise Unsupported("contract of %s not applicable to these arguments at %s:%d (%s: %s)" % (
+                con.qual, self.mod, e.lineno, type(ex_).__name__, ex_))
+
+    def _apply_contract(self, con, recv, args, kwargs, e):
         vals = self.bind_args(con, args, kwargs, e)
         # coerce arguments to the declared parameter shapes
         for n, spec in con.params.items():
             vals[n] = self.coerce_arg(vals[n], spec, e)
+        for n, spec in con.params.items():
+            if spec.startswith("callback:"):
+                # a closure handed to a data structure: verified here against the callback contract
+                _, which, hname = spec.split(":")
+                cb = REGISTRY["callback.listener"]
+                if isinstance(vals[n], VClosure):
+                    cb.check_closure(self, which, vals[hname], vals[n], e)
+                elif not (isinstance(vals[n], VCallback) and vals[n].which == which and vals[n].handle.eq(vals[hname].t)):
+                    self.oblige("call@%d.registers.%s_f" % (e.lineno, which), BoolVal(False), ["C02", "C01"], e.lineno, "callback")
         pre = self.st.copy()
         self_ref = recv.t if recv is not None else None
         c = Ctx(pre, pre, vals, self_ref, con.cls)
@@ -1144,6 +1176,10 @@ class Exec:
         if spec.startswith("opt") and spec[3:] in ("str", "real", "int", "bool", "json"):
             isn, t = to_opt(v, spec[3:])
             return VOpt(isn, VZ(t, spec[3:]))
+        if spec.startswith("ref:") or spec.startswith("ref?:"):
+            if not (isinstance(v, VRef) and v.cls == spec.split(":")[1]):
+                raise TypeError("argument is not a %s object" % spec.split(":")[1])
+            return v
         if spec == "sm":
             if not (isinstance(v, VNamed) and v.name == "SidedMessage"):
                 raise Unsupported("argument is not a SidedMessage at %d" % e.lineno)
